@@ -1586,6 +1586,11 @@ func (db *DB) RequestWithContext(ctx context.Context, req *command.Request, xTim
 					Error: err.Error(),
 				},
 			})
+			if abortOnError(err) {
+				// A statement that cannot even be prepared fails the transaction
+				// just like one that fails when run.
+				break
+			}
 			continue
 		}
 
